@@ -219,4 +219,28 @@ Theorem reference_comparable D1 D1' D2 : all_accepted D1 -> all_accepted D1' -> 
 Proof.
   intros A1 A1' A2 I1 I1' Hff. apply (prefix_comparable _ _ (snd (reference vals D2))); apply reference_prefix; auto.
 Qed.
+
+(* ---------- epoch sealing ---------- *)
+Lemma seal_cut_prefix {A} (k : N) (a : list (N * N * A)) : forall b, prefix a b ->
+  snd (seal_cut k a) = true -> seal_cut k b = seal_cut k a.
+Proof.
+  induction a as [|x a IH]; intros b [t ->] H; [discriminate|].
+  cbn [app seal_cut] in *. destruct ((fst (fst x) =? k) && negb (k =? 0)); [reflexivity|].
+  destruct (seal_cut k a) as [l s] eqn:E. cbn [snd] in H.
+  rewrite (IH (a ++ t)); [try rewrite E; reflexivity|exists t; reflexivity|exact H].
+Qed.
+
+(* same epoch transition: two instances that have processed (accepted) subsets of one DAG and have both
+   reached the sealing frame have emitted the same blocks of the epoch, ending with the same sealing
+   block; the next validator set is a function (next_vals) of the old one *)
+Theorem reference_seal_agreement k D1 D1' D2 : all_accepted D1 -> all_accepted D1' -> all_accepted D2 ->
+  incl D1 D2 -> incl D1' D2 -> few_forkers vals (table D2) ->
+  snd (seal_cut k (snd (reference vals D1))) = true -> snd (seal_cut k (snd (reference vals D1'))) = true ->
+  seal_cut k (snd (reference vals D1)) = seal_cut k (snd (reference vals D1')).
+Proof.
+  intros A1 A1' A2 I1 I1' Hff S1 S1'.
+  rewrite <- (seal_cut_prefix k _ (snd (reference vals D2)) (reference_prefix D1 D2 A1 A2 I1 Hff) S1).
+  rewrite <- (seal_cut_prefix k _ (snd (reference vals D2)) (reference_prefix D1' D2 A1' A2 I1' Hff) S1').
+  reflexivity.
+Qed.
 End Run.
